@@ -641,6 +641,9 @@ def execute(plan):
                 cov.append((proc, n, bc, tuple(ex["kinds"]), plan["W"] is not None,
                             s["base_kind"], plan["cfg"], ex["warm"], bool(fault),
                             bool(unique_x), plan.get("L1") is not None, ex.get("layout", "C")))
+        # ---- W="inverse" through the function interface (round 13, c05n_1) ----------------
+        if proc == "gaussian" and int(plan["run_seed"]) % 3 == 0:
+            inverse_weight_rows(plan, est, bump)
     except Violation as v:
         violation = v.as_dict()
     bump("executions", len(plan["execs"]))
@@ -648,6 +651,79 @@ def execute(plan):
            "cov": cov, "nontrivial": bool(cov), "margins": margins, "proc": proc,
            "cfg": plan["cfg"]}
     return res
+
+
+INV_MARGIN = [0.0]      # largest difference / tolerance seen by inverse_weight_rows (diagnostic)
+
+
+def inverse_weight_rows(plan, est, bump):
+    """Row independence of `lsq_linear(..., W="inverse")`, the one weighting the estimator cannot
+    register (register_targets turns a string into an array): the weights of row i are 1 / B[i],
+    a function of row i alone.  A private generator derived from the run seed builds 3-5
+    strictly positive targets with a wide dynamic range - in-gamut captures distorted per
+    receptor (so the weights matter), one entry of one row at 2e-4 .. 8e-4 of the call's largest
+    entry above the dark point, one bright row - and the stacked call (several batch sizes) is compared row by row
+    with the same row fitted alone, all at the high-accuracy settings.  A solver failure of any
+    of the calls is inconclusive here (weights spanning 1e3..1e4 are a delicate regime; failure
+    by combination is the main oracle's business), never a violation."""
+    from dreye.api.optimize.lsq_linear import lsq_linear
+    g = np.random.default_rng([int(plan["run_seed"]) & 0x7FFFFFFF, 0xC05])
+    A = np.asarray(est.A, float)
+    lb = np.broadcast_to(np.asarray(est.lb, float), (A.shape[1],))
+    ub = np.broadcast_to(np.asarray(est.ub, float), (A.shape[1],))
+    if not np.all(np.isfinite(ub)):
+        bump("inverse_weights:skipped_unbounded")
+        return
+    n = int(g.integers(3, 6))
+    X0 = lb + (ub - lb) * g.uniform(0.15, 0.85, (n, A.shape[1]))
+    B0 = np.asarray(est.system_relative_capture(X0), float)
+    if not np.all(np.isfinite(B0)) or np.min(B0) <= 0:
+        bump("inverse_weights:skipped_nonpositive_capture")
+        return
+    # distortions are applied above the dark point (the capture of zero intensity): the fitting
+    # code declares target minus baseline a positive parameter and rejects anything below
+    dark = np.asarray(est.system_relative_capture(np.zeros((1, A.shape[1]))), float)[0]
+    if not np.all(np.isfinite(dark)) or np.min(dark) < 0 or np.min(B0 - dark) <= 0:
+        bump("inverse_weights:skipped_nonpositive_capture")
+        return
+    Bt = dark + (B0 - dark) * g.uniform(0.6, 1.6, B0.shape)
+    bright = int(g.integers(0, n))
+    Bt[bright] = dark + (Bt[bright] - dark) * g.uniform(8.0, 25.0)
+    tiny = int((bright + 1 + g.integers(0, n - 1)) % n)
+    j = int(g.integers(0, Bt.shape[1]))
+    Bt[tiny, j] = dark[j] + float(np.max(Bt)) * g.uniform(2e-4, 8e-4)
+    kw = dict(lb=est.lb, ub=est.ub, W="inverse", K=est.K, baseline=est.baseline,
+              return_pred=True, **HA_KW["gaussian"])
+    alone = []
+    for i in range(n):
+        r = call(lambda i=i: lsq_linear(est.A, Bt[i:i + 1].copy(), batch_size=1, **kw))
+        if not r.ok or not np.all(np.isfinite(np.asarray(r.value[1]))):
+            bump("inverse_weights:inconclusive_row_call_failed")
+            return
+        alone.append(np.asarray(r.value[1], float)[0])
+    alone = np.array(alone)
+    for bs in (1, 2, n, "full"):
+        r = call(lambda bs=bs: lsq_linear(est.A, Bt.copy(), batch_size=bs, **kw))
+        if not r.ok or not np.all(np.isfinite(np.asarray(r.value[1]))):
+            bump("inverse_weights:inconclusive_stacked_call_failed")
+            continue
+        Bp = np.asarray(r.value[1], float)
+        if Bp.shape != alone.shape:
+            raise Violation(ID, "wrong_shape", f"gaussian, W='inverse': predicted captures of "
+                            f"shape {Bp.shape} for {n} rows", bs=bs)
+        for i in range(n):
+            tol = 4e-3 * max(1.0, float(np.max(np.abs(Bt[i]))))
+            d = float(np.max(np.abs(Bp[i] - alone[i])))
+            INV_MARGIN[0] = max(INV_MARGIN[0], d / tol)
+            if d > tol:
+                raise Violation(
+                    ID, "row_depends_on_other_rows",
+                    f"gaussian, W='inverse' (function interface): predicted capture of row {i} "
+                    f"in a call of {n} rows (batch_size={bs!r}) differs from the same row fitted "
+                    f"alone by {d:.3g} > {tol:.3g}", row=i, diff=d, bs=bs, quantity="B",
+                    targets=Bt)
+        bump("inverse_weights:stacked_calls_compared")
+    bump("reach:inverse_weights_rows", n)
 
 
 # ----------------------------------------------------------------------------
